@@ -1428,6 +1428,18 @@ def main():
         files['Effects.lean'] = gen_effects()
     except (Refuse, SyntaxError) as r:
         report['refused'].append(['Effects', str(r)])
+    # plug-ins: /verif/py/translate_ext_*.py, each with generate() -> ({filename: text}, [(unit, reason), ...])
+    import glob, importlib.util
+    for ext in sorted(glob.glob(os.path.join(os.path.dirname(os.path.abspath(__file__)), 'translate_ext_*.py'))):
+        try:
+            spec = importlib.util.spec_from_file_location(os.path.basename(ext)[:-3], ext)
+            mod = importlib.util.module_from_spec(spec)
+            spec.loader.exec_module(mod)
+            extra, refused = mod.generate()
+            files.update(extra)
+            report['refused'] += [[a, b] for a, b in refused]
+        except (Refuse, SyntaxError) as r:
+            report['refused'].append([os.path.basename(ext), str(r)])
     for name, text in files.items():
         path = os.path.join(outdir, name)
         old = open(path).read() if os.path.exists(path) else None
